@@ -121,10 +121,21 @@ def strategy_(draw, tier, tool=None):
     sub = draw(st.sampled_from(tops)) if tops else None
     if sub is None and root in ("sub", "abs-sub", "cwd-below"):
         root = "dot"
+    mode = draw(st.sampled_from(["", "", "", "dfs", "mindepth 2", "mindepth 3", "maxdepth 2", "mindepth 2 dfs", "mindepth 2 maxdepth 3"]))
+    if tool in ("git", "docker") and pdirs and draw(st.sampled_from(range(8))) == 0:
+        # a directory ignored ABOVE the depth window whose children a later wildcard negation would re-include if they
+        # were judged one by one: they stay ignored (git: a file below an excluded directory cannot be re-included;
+        # docker decides per path - the reference knows) - and the window must not change the verdicts
+        d = draw(st.sampled_from(pdirs))
+        exts = sorted({"/".join(rel).rsplit(".", 1)[-1] for rel, n, _ in trees.walk(spec)
+                       if "/".join(rel).startswith(d + "/") and "." in rel[-1] and n["t"] != "d"})
+        if exts:
+            lines = [d.split("/")[-1] + "/", "!*." + draw(st.sampled_from(exts))] + lines[:1]
+            mode = draw(st.sampled_from(["mindepth %d" % (d.count("/") + 2), "mindepth %d dfs" % (d.count("/") + 2), mode]))
     return {"tree": spec, "tool": tool, "lines": lines, "root": root, "sub": sub,
             "switch": draw(st.sampled_from(["option", "option", "alias", "config", "config+no", "absent"])),
             # traversal and depth options next to the ignore switch: what is ignored must not depend on them
-            "mode": draw(st.sampled_from(["", "", "", "dfs", "mindepth 2", "mindepth 3", "maxdepth 2", "mindepth 2 dfs", "mindepth 2 maxdepth 3"]))}
+            "mode": mode}
 
 
 @st.composite
